@@ -25,6 +25,16 @@ package main
 // virtual lock and with thread class `any`; it then conflicts with the write rows of the
 // recycling path in Release and drf_ok rejects the table.
 //
+// Rule ESCAPING-CALLER-MEMORY. In a traffic closure (RTPWriterFunc / RTPReaderFunc / RTCPWriterFunc /
+// RTCPReaderFunc literal) the pointer / slice / map parameters (header, payload, read buffer, packets,
+// attributes) belong to the caller, who may overwrite them as soon as the call returns. A parameter (or a
+// local alias / re-slice of it) that is sent on a channel, stored in a field / map / slice of a tracked
+// struct, or captured by a go statement - directly or as an element of a composite literal, i.e. without a
+// copy - outlives the call. The analyser prints a `write` row (the caller's next write: any thread, no
+// lock the interceptor knows of) on the pseudo-location <Type>.<param>#caller-memory; it conflicts with
+// itself and drf_ok rejects the table. Values that pass through a call (Clone, append([]byte{}, p...),
+// helper methods) are not followed.
+//
 // Limits (lexical, one pass): values carried through struct fields, channels, closures or
 // callee-internal critical sections are not tracked; a split across loop iterations (read at
 // the end of one iteration, write at the start of the next) is not seen; branches are merged
@@ -64,12 +74,14 @@ type ruleState struct {
 	released map[string]token.Pos // canonical expression of a virtual-lock object -> position of Release()
 	derived  map[types.Object]*derivedVal
 	inDefer  bool
+	params   map[types.Object]string // caller-owned pointer/slice/map parameters of a traffic closure (and aliases) -> parameter name
 }
 
 func (w *walker) rs() *ruleState {
 	if w.rules == nil {
 		w.rules = &ruleState{csSeq: map[string]int{}, curCS: map[string]int{}, taints: map[types.Object][]taint{},
-			released: map[string]token.Pos{}, derived: map[types.Object]*derivedVal{}}
+			released: map[string]token.Pos{}, derived: map[types.Object]*derivedVal{}, params: map[types.Object]string{}}
+		w.callerParams()
 	}
 
 	return w.rules
@@ -190,6 +202,9 @@ func (w *walker) assignRules(lhs ast.Expr, rhs ast.Expr, keep bool) {
 	// 1. a tracked field is written: is the value derived from an earlier read of the same field in another critical section?
 	if tf := w.targetField(lhs); tf != nil {
 		w.checkSplit(tf, rhs, false)
+		if pn := w.callerMem(rhs, true); pn != "" {
+			w.emitEscape(pn, rhs.Pos(), "stored in "+types.ExprString(tf))
+		}
 	}
 	id, ok := lhs.(*ast.Ident)
 	if !ok || id.Name == "_" {
@@ -230,6 +245,12 @@ func (w *walker) assignRules(lhs ast.Expr, rhs ast.Expr, keep bool) {
 	}
 	if keep {
 		return
+	}
+	// aliases of caller-owned parameters: v := payload, v := buf[:n]
+	if pn := w.callerMem(rhs, false); pn != "" {
+		r.params[obj] = pn
+	} else {
+		delete(r.params, obj)
 	}
 	// 3. use-after-release bookkeeping
 	c := w.canon(id)
@@ -439,4 +460,111 @@ func (w *walker) atomicStoreRules(call *ast.CallExpr) {
 	if s := w.atomicTarget(call, "Store"); s != nil && len(call.Args) > 1 {
 		w.checkSplit(s, call.Args[1], true)
 	}
+}
+
+// callerParams: the unit is a traffic closure analysed as such: its pointer / slice / map parameters are caller memory.
+func (w *walker) callerParams() {
+	if w.u.lit == nil || w.c.phase != "traffic-closure" || w.u.ftype == nil || w.u.ftype.Params == nil || len(w.c.inh) > 0 {
+		return
+	}
+	for _, f := range w.u.ftype.Params.List {
+		for _, n := range f.Names {
+			obj := w.info.Defs[n]
+			if obj == nil || n.Name == "_" {
+				continue
+			}
+			switch obj.Type().Underlying().(type) {
+			case *types.Pointer, *types.Slice, *types.Map:
+				w.rules.params[obj] = n.Name
+			}
+		}
+	}
+}
+
+// callerMem: does e denote caller memory without a copy? The parameter itself, an alias, a re-slice, its address-of
+// / dereference-free forms, and (deep) an element of a composite literal or a non-variadic append argument.
+func (w *walker) callerMem(e ast.Expr, deep bool) string {
+	if w.rules == nil || len(w.rules.params) == 0 || e == nil {
+		return ""
+	}
+	switch x := ast.Unparen(e).(type) {
+	case *ast.Ident:
+		return w.rules.params[w.info.Uses[x]]
+	case *ast.SliceExpr:
+		return w.callerMem(x.X, false)
+	case *ast.UnaryExpr:
+		if x.Op == token.AND && deep {
+			return w.callerMem(x.X, deep)
+		}
+	case *ast.CompositeLit:
+		if !deep {
+			return ""
+		}
+		for _, el := range x.Elts {
+			v := el
+			if kv, ok := el.(*ast.KeyValueExpr); ok {
+				v = kv.Value
+			}
+			if pn := w.callerMem(v, true); pn != "" {
+				return pn
+			}
+		}
+	case *ast.CallExpr:
+		if id, ok := x.Fun.(*ast.Ident); ok && id.Name == "append" && deep && x.Ellipsis == token.NoPos {
+			if _, isB := w.info.Uses[id].(*types.Builtin); isB {
+				for _, a := range x.Args[1:] {
+					if pn := w.callerMem(a, true); pn != "" {
+						return pn
+					}
+				}
+			}
+		}
+	}
+
+	return ""
+}
+
+// sendRules is called for `ch <- v`.
+func (w *walker) sendRules(s *ast.SendStmt) {
+	w.rs()
+	if pn := w.callerMem(s.Value, true); pn != "" {
+		w.emitEscape(pn, s.Value.Pos(), "sent on channel "+types.ExprString(s.Chan))
+	}
+}
+
+// goRules is called for a go statement: arguments and captured variables outlive the call.
+func (w *walker) goRules(g *ast.GoStmt) {
+	w.rs()
+	if len(w.rules.params) == 0 {
+		return
+	}
+	for _, a := range g.Call.Args {
+		if pn := w.callerMem(a, true); pn != "" {
+			w.emitEscape(pn, a.Pos(), "passed to a go statement")
+
+			return
+		}
+	}
+	if lit, ok := g.Call.Fun.(*ast.FuncLit); ok {
+		ast.Inspect(lit.Body, func(n ast.Node) bool {
+			if id, ok := n.(*ast.Ident); ok {
+				if pn := w.rules.params[w.info.Uses[id]]; pn != "" {
+					w.emitEscape(pn, id.Pos(), "captured by a go statement")
+
+					return false
+				}
+			}
+
+			return true
+		})
+	}
+}
+
+func (w *walker) emitEscape(param string, pos token.Pos, how string) {
+	si := w.u.recvInfo
+	if si == nil {
+		return
+	}
+	w.emit(si, param+"#caller-memory", "write", nil, "traffic-closure", classAny, nil, nil,
+		"ESCAPING CALLER MEMORY: parameter "+param+" "+how+" without a copy; the caller may overwrite it after the call returns", pos)
 }
